@@ -242,25 +242,6 @@ theorem writePadding_wrote (sz : Nat) (w : W) (hb : w.broken = false) :
     apply List.drop_eq_nil_of_le; simp
   simp [poke, hd]
 
-theorem poke3 (D x y z : Bytes) (hD : D.length = 14) (hx : x.length = 4) (hy : y.length = 4) (hz : z.length = 2) :
-    poke (poke (poke D 4 x) 8 y) 12 z = D.take 4 ++ x ++ y ++ z := by
-  have h1 : poke D 4 x = D.take 4 ++ (x ++ D.drop 8) := by simp [poke, hx]
-  have d1 : ∀ k, 4 ≤ k → List.drop k (List.take 4 D) = [] := fun k hk =>
-    List.drop_eq_nil_of_le (by simp; omega)
-  have d2 : ∀ k, 4 ≤ k → List.drop k x = [] := fun k hk => List.drop_eq_nil_of_le (by omega)
-  have d3 : ∀ k, 4 ≤ k → List.drop k y = [] := fun k hk => List.drop_eq_nil_of_le (by omega)
-  have d4 : List.drop 14 D = [] := List.drop_eq_nil_of_le (by omega)
-  have t1 : ∀ k, 4 ≤ k → List.take k x = x := fun k hk => List.take_of_length_le (by omega)
-  have h2 : poke (poke D 4 x) 8 y = D.take 4 ++ (x ++ (y ++ D.drop 12)) := by
-    rw [h1]
-    simp [poke, hy, List.take_append, List.drop_append, hD, hx, List.take_take, d1, d2]
-  rw [h2]
-  simp [poke, hz, List.take_append, List.drop_append, hD, hx, hy, List.take_take, d1, d2, d3, d4, t1]
-
-theorem poke0 (D x y z t : Bytes) (hD : D.length = 4) (ht : t.length = 4) :
-    poke (D ++ x ++ y ++ z) 0 t = t ++ x ++ y ++ z := by
-  simp [poke, ht, List.drop_append, hD]
-
 theorem writeKVInfo_wrote (sz : Nat) (intKV : IntMap) (strKV : StrMap) (w : W) (hb : w.broken = false) :
     Wrote (writeKVInfo sz intKV strKV w) sz w
       (rawAcl strKV ++ rawStrSec strKV ++ rawIntSec intKV ++
